@@ -486,8 +486,9 @@ class SymEval:
             st.env["self." + f] = ("loop", lid, "self." + f)
         if calls_self:
             for k in list(st.env):
-                if k.startswith("self.") and k[5:] not in self.frozen_fields:
+                if k.startswith("self.") and k[5:] not in self.frozen_fields and k != "self.*":
                     st.env[k] = ("loop", lid, k)
+            st.env["self.*"] = ("in", lid)
         info["pre"] = pre.env
         self._loops.append(lid)
         if isinstance(s, ast.While):
@@ -512,8 +513,9 @@ class SymEval:
             out.env["self." + f] = ("loopout", lid, "self." + f)
         if calls_self:
             for k in list(out.env):
-                if k.startswith("self.") and k[5:] not in self.frozen_fields:
+                if k.startswith("self.") and k[5:] not in self.frozen_fields and k != "self.*":
                     out.env[k] = ("loopout", lid, k)
+            out.env["self.*"] = ("out", lid)
         if isinstance(s, ast.While) and self.truth(info["test"]) is None and not _has_break(s.body):
             out.assume(info["test"], False)
         if s.orelse:
@@ -628,6 +630,8 @@ class SymEval:
                 k = "self." + e.attr
                 if k in st.env:
                     return st.env[k]
+                if "self.*" in st.env and e.attr not in self.frozen_fields:
+                    return ("fieldv", e.attr, st.env["self.*"])  # field value after possible modification by a callee
                 return ("field", e.attr)
             return ("attr", base, e.attr)
         if isinstance(e, ast.Subscript):
@@ -844,10 +848,12 @@ class SymEval:
         passes_self = (f[0] == "attr" and f[1] == ("self",)) or ("self",) in args or any(v == ("self",) for _, v in kwargs)
         if passes_self and not (f[0] == "builtin" and f[1] in ("getattr", "hasattr", "isinstance", "len", "str", "repr", "id", "type")):
             for k in list(st.env):
-                if k.startswith("self.") and k[5:] not in self.frozen_fields:
+                if k.startswith("self.") and k[5:] not in self.frozen_fields and k != "self.*":
                     if f == ("builtin", "setattr") and len(args) == 3 and is_const(args[1]) and k != "self." + str(args[1][1]):
                         continue
                     st.env[k] = ("havoc", uid, k)
+            if not (f == ("builtin", "setattr") and len(args) == 3 and is_const(args[1])):
+                st.env["self.*"] = ("after", uid)
         return t
 
 
@@ -968,6 +974,8 @@ def show(t, depth=0) -> str:
         return t[1]
     if k == "field":
         return f"self.{t[1]}"
+    if k == "fieldv":
+        return f"self.{t[1]}@{t[2][0]}{t[2][1]}"
     if k == "self":
         return "self"
     if k == "bin":
